@@ -71,6 +71,18 @@ fn prior_sets() -> Vec<SS> {
 // ---------------- C09: $_ matches anything and never binds ------------------
 pub fn enum_anon(_seed: u64) -> Vec<String> {
     let mut out = vec![];
+    // nested positions: complex terms that match only through $_
+    let f = |x: Unifiable, y: Unifiable| SComplex(vec![atom("f"), x, y]);
+    let nested = vec![
+        (f(Anonymous, Anonymous), f(atom("b"), atom("c"))),
+        (f(atom("b"), Anonymous), f(Anonymous, atom("c"))),
+        (SComplex(vec![atom("p"), Anonymous]), SComplex(vec![atom("p"), atom("b")])),
+        (SComplex(vec![atom("p"), f(Anonymous, atom("a"))]), SComplex(vec![atom("p"), f(var(3, "$Z"), Anonymous)])),
+    ];
+    for ss in prior_sets() { for (a, b) in &nested {
+        out.push(format!("ss={};a={};b={}", ser_ss(&ss), ser(a), ser(b)));
+        out.push(format!("ss={};a={};b={}", ser_ss(&ss), ser(b), ser(a)));
+    } }
     for ss in prior_sets() { for t in small_terms() {
         out.push(format!("ss={};a={};b=_", ser_ss(&ss), ser(&t)));
         out.push(format!("ss={};a=_;b={}", ser_ss(&ss), ser(&t)));
